@@ -70,7 +70,7 @@ theorem entryStepB_sim_ind (ind ind' t : List Char) (E : List Entry) (H : Bool) 
   cases hc : headSpTab t with
   | true =>
     simp only [if_true]
-    exact ⟨h.entries, by simp, h.hasOpen, rfl, h.panicked, h.pending⟩
+    exact ⟨by simp, by simp, by simp, rfl, h.panicked, h.pending⟩
   | false =>
     simp only [Bool.false_eq_true, if_false]
     have hrel := parseValue_rel (ind.length : Int) (ind'.length : Int) t
@@ -80,8 +80,8 @@ theorem entryStepB_sim_ind (ind ind' t : List Char) (E : List Entry) (H : Bool) 
       dsimp only
       refine ⟨h.entries, h.errs, h.hasOpen, h.stopped, h.panicked, ?_⟩
       simp [pend, e1, e2]
-    · exact ⟨h.entries, by simp, h.hasOpen, h.stopped, h.panicked, h.pending⟩
-    · exact ⟨h.entries, by simp, h.hasOpen, h.stopped, h.panicked, h.pending⟩
+    · exact ⟨by simp, by simp, by simp, h.stopped, h.panicked, h.pending⟩
+    · exact ⟨by simp, by simp, by simp, h.stopped, h.panicked, h.pending⟩
     · exact ⟨h.entries, h.errs, h.hasOpen, h.stopped, rfl, h.pending⟩
 
 theorem indent_head (ind : List Char) (h : Spec.Indent ind) : ∃ c tl, ind = c :: tl ∧ isSpTab c = true := by
@@ -114,7 +114,7 @@ theorem entryStep_cont_sim_ind (ind ind' t : List Char) (hi : Spec.Indent ind) (
       have h1 : headSpTab (ind ++ t) = true := by rw [e]; exact hc
       have h2 : headSpTab (ind' ++ t) = true := by rw [e']; exact hc'
       rw [if_pos h1, if_pos h2]
-      exact ⟨h.entries, by simp, h.hasOpen, rfl, h.panicked, by simp [pend, hap, hb]⟩
+      exact ⟨by simp, by simp, by simp, rfl, h.panicked, by simp [pend, hap, hb]⟩
     | some p =>
       cases hbp : b.pending with
       | none =>
@@ -128,7 +128,18 @@ theorem entryStep_cont_sim_ind (ind ind' t : List Char) (hi : Spec.Indent ind) (
         split
         · refine ⟨h.entries, h.errs, h.hasOpen, rfl, rfl, ?_⟩
           simp [pend, hv, hs]
-        · exact ⟨h.entries, by simp, h.hasOpen, rfl, rfl, rfl⟩
+        · have hc1 : (a.commit.errs ++ [(⟨nr, 0, (ind ++ ind ++ t).length, .malformedSummary⟩ : Err)]) ≠ [] := by
+            simp
+          have hc2 : (b.commit.errs ++ [(⟨nr', 0, (ind' ++ ind' ++ t).length, .malformedSummary⟩ : Err)]) ≠ [] := by
+            simp
+          refine ⟨fun e => absurd e hc1, ⟨fun e => absurd e hc1, fun e => absurd e hc2⟩,
+            fun e => absurd e hc1, ?_, ?_, ?_⟩
+          · show a.commit.stopped = b.commit.stopped
+            rw [commit_stopped, commit_stopped]; exact h.stopped
+          · show a.commit.panicked = b.commit.panicked
+            rw [commit_panicked, commit_panicked]; exact h.panicked
+          · show pend a.commit = pend b.commit
+            rw [commit_pend_none, commit_pend_none]
 
 theorem stepsGo_conts_sim_ind (ind ind' : List Char) (hi : Spec.Indent ind) (hi' : Spec.Indent ind')
     (E : List Entry) (H : Bool) (texts : List (List Char)) : ∀ (a b : PState) (nr nr' : Nat), Sim E H a b →
@@ -155,7 +166,7 @@ theorem denotes_transfer (ind ind' : List Char) (hi : Spec.Indent ind) (hi' : Sp
   rw [denotes_iff _ _ _ _ f1] at hpr
   rw [denotes_iff _ _ _ _ f1']
   obtain ⟨g1, g2, g3⟩ := hpr
-  have h0 : Sim [] false ({} : PState) {} := ⟨rfl, Iff.rfl, rfl, rfl, rfl, rfl⟩
+  have h0 : Sim [] false ({} : PState) {} := ⟨fun _ => rfl, Iff.rfl, fun _ => rfl, rfl, rfl, rfl⟩
   have hstep1 : Sim [] false (entryStep (asciiChars i) {} 1 (asciiChars i ++ decodeGo (b0 :: tl)))
       (entryStep (asciiChars i') {} 1 (asciiChars i' ++ decodeGo (b0 :: tl))) := by
     have e1 : ∀ (s l : List Char), entryStep s {} 1 l = entryStepB s {} 1 l := by
@@ -174,6 +185,6 @@ theorem denotes_transfer (ind ind' : List Char) (hi : Spec.Indent ind) (hi' : Sp
     rw [hmap, hmap]
     exact commit_sim _ _ _ _ (stepsGo_conts_sim_ind _ _ hi hi' [] false _ _ _ _ _ hstep1) (Or.inl rfl)
   refine ⟨?_, hsim.errs.mp g2, by rw [← hsim.panicked]; exact g3⟩
-  rw [hsim.entries, g1]; rfl
+  rw [hsim.entries g2, g1]; rfl
 
 end KlogV.RefineLemmas
